@@ -733,6 +733,8 @@ func parseBinOps(expr string, n *promParser.BinaryExpr) (src []Source) {
 	case n.VectorMatching.Card == promParser.CardOneToOne:
 		rhs := walkNode(expr, n.RHS)
 		for _, s = range walkNode(expr, n.LHS) {
+			// Labels this side can have before vector matching is applied to it.
+			orig := copyLabels(s)
 			if n.VectorMatching.On {
 				s.FixedLabels = true
 				s = includeLabel(s, n.VectorMatching.MatchingLabels...)
@@ -773,7 +775,7 @@ func parseBinOps(expr string, n *promParser.BinaryExpr) (src []Source) {
 				s.Operation = n.VectorMatching.Card.String()
 			}
 			for _, rs := range rhs {
-				if ok, s, pos := canJoin(s, rs, n.VectorMatching); !ok {
+				if ok, s, pos := canJoin(orig, rs, n.VectorMatching); !ok {
 					rs.IsDead = true
 					rs.IsDeadReason = s
 					rs.IsDeadPosition = pos
@@ -791,6 +793,7 @@ func parseBinOps(expr string, n *promParser.BinaryExpr) (src []Source) {
 	case n.VectorMatching.Card == promParser.CardOneToMany:
 		lhs := walkNode(expr, n.LHS)
 		for _, s = range walkNode(expr, n.RHS) {
+			orig := copyLabels(s)
 			s = includeLabel(s, n.VectorMatching.Include...)
 			// If we have:
 			// foo * on(instance) group_left(a,b) bar{x="y"}
@@ -802,7 +805,7 @@ func parseBinOps(expr string, n *promParser.BinaryExpr) (src []Source) {
 				s.Operation = n.VectorMatching.Card.String()
 			}
 			for _, ls := range lhs {
-				if ok, s, pos := canJoin(s, ls, n.VectorMatching); !ok {
+				if ok, s, pos := canJoin(orig, ls, n.VectorMatching); !ok {
 					ls.IsDead = true
 					ls.IsDeadReason = s
 					ls.IsDeadPosition = pos
@@ -820,6 +823,7 @@ func parseBinOps(expr string, n *promParser.BinaryExpr) (src []Source) {
 	case n.VectorMatching.Card == promParser.CardManyToOne:
 		rhs := walkNode(expr, n.RHS)
 		for _, s = range walkNode(expr, n.LHS) {
+			orig := copyLabels(s)
 			s = includeLabel(s, n.VectorMatching.Include...)
 			if n.VectorMatching.On {
 				s = includeLabel(s, n.VectorMatching.MatchingLabels...)
@@ -828,7 +832,7 @@ func parseBinOps(expr string, n *promParser.BinaryExpr) (src []Source) {
 				s.Operation = n.VectorMatching.Card.String()
 			}
 			for _, rs := range rhs {
-				if ok, s, pos := canJoin(s, rs, n.VectorMatching); !ok {
+				if ok, s, pos := canJoin(orig, rs, n.VectorMatching); !ok {
 					rs.IsDead = true
 					rs.IsDeadReason = s
 					rs.IsDeadPosition = pos
@@ -849,6 +853,7 @@ func parseBinOps(expr string, n *promParser.BinaryExpr) (src []Source) {
 		rhs := walkNode(expr, n.RHS)
 		for _, s = range walkNode(expr, n.LHS) {
 			var rhsConditional bool
+			orig := copyLabels(s)
 			if n.VectorMatching.On {
 				s = includeLabel(s, n.VectorMatching.MatchingLabels...)
 			}
@@ -863,7 +868,7 @@ func parseBinOps(expr string, n *promParser.BinaryExpr) (src []Source) {
 				if isConditional {
 					rhsConditional = true
 				}
-				if ok, s, pos := canJoin(s, rs, n.VectorMatching); !ok {
+				if ok, s, pos := canJoin(orig, rs, n.VectorMatching); !ok {
 					rs.IsDead = true
 					rs.IsDeadReason = s
 					rs.IsDeadPosition = pos
@@ -917,6 +922,15 @@ func checkConditions(s Source, op promParser.ItemType, isBool bool) (isCondition
 		isConditional = op.IsComparisonOperator()
 	}
 	return isConditional, isReturnBool
+}
+
+// copyLabels returns a copy of s that doesn't share label slices with it,
+// so that adding or removing labels on s won't be visible on the copy.
+func copyLabels(s Source) Source {
+	s.IncludedLabels = slices.Clone(s.IncludedLabels)
+	s.ExcludedLabels = slices.Clone(s.ExcludedLabels)
+	s.GuaranteedLabels = slices.Clone(s.GuaranteedLabels)
+	return s
 }
 
 func canJoin(ls, rs Source, vm *promParser.VectorMatching) (bool, string, posrange.PositionRange) {
